@@ -2962,12 +2962,7 @@ CaseExtRm:
           goto EmitVexEvexR;
         }
 
-        // Form 'k, k'.
-        if (!Support::test(options, InstOptions::kX86_ModMR))
-          goto EmitVexEvexR;
-
-        opcode.add(1);
-        std::swap(op_reg, rb_reg);
+        // Form 'k, k' - there is no alternative encoding, the store opcode (91) is only defined with a memory operand.
         goto EmitVexEvexR;
       }
 
